@@ -63,6 +63,14 @@ fn seq_laws(s: &[u8]) -> (u64, Vec<String>) {
             model = rc(&model);
             chk!(cur.bytes() == model && cur.len() == len, "slice rc nesting depth {} (offset {}, len {})", depth, off, len);
             chk!((0..len).all(|i| cur.get(i) == model[i]), "slice rc get (offset {}, depth {})", off, depth);
+            // a sub-interval of a reverse-complemented view is the sub-interval of the reverse-complemented string
+            if len >= 2 {
+                for (a, b) in [(1, len), (0, len - 1), (len / 2, len), (1, len - 1)] {
+                    if a <= b {
+                        chk!(cur.slice(a, b).bytes() == model[a..b], "slice({}, {}) of a view reverse-complemented {} time(s) (offset {}, len {})", a, b, depth, off, len);
+                    }
+                }
+            }
         }
         // commutation with k-mer extraction and with extension sets, for several K
         macro_rules! kx { ($($t:ty),*) => { $( {
@@ -111,7 +119,7 @@ pub fn check(tier: &str, rep: &mut Report) {
     // k-mers
     for_all_kmer_types!(K, name => {
         let (vals, complete) = values(K::k(), if quick { 8 } else { 12 }, true);
-        let res: Vec<(u64, Vec<(S, String)>)> = vals.par_iter().map(|s| { let (n, b) = kmer_laws::<K>(s); (n, b.into_iter().map(|m| (s.clone(), m)).collect()) }).collect();
+        let res: Vec<(u64, Vec<(S, String)>)> = vals.par_iter().map(|s| { let (n, b) = std::panic::catch_unwind(|| kmer_laws::<K>(s)).unwrap_or((1, vec!["panicked".to_string()])); (n, b.into_iter().map(|m| (s.clone(), m)).collect()) }).collect();
         rep.states += vals.len() as u64;
         rep.evaluations += vals.len() as u64;
         rep.nontrivial += vals.iter().filter(|s| is_pal(s) || rc(s) < **s).count() as u64;
@@ -162,7 +170,7 @@ pub fn check(tier: &str, rep: &mut Report) {
             }
         }
     }
-    let res: Vec<(u64, Vec<(S, String)>)> = seqs.par_iter().map(|s| { let (n, b) = seq_laws(s); (n, b.into_iter().map(|m| (s.clone(), m)).collect()) }).collect();
+    let res: Vec<(u64, Vec<(S, String)>)> = seqs.par_iter().map(|s| { let (n, b) = std::panic::catch_unwind(|| seq_laws(s)).unwrap_or((1, vec!["panicked".to_string()])); (n, b.into_iter().map(|m| (s.clone(), m)).collect()) }).collect();
     rep.states += seqs.len() as u64;
     rep.evaluations += seqs.len() as u64;
     rep.nontrivial += seqs.iter().filter(|s| s.len() >= 2 && **s != rc(s)).count() as u64;
